@@ -4,6 +4,7 @@ import (
 	"bytes"
 	"crypto/tls"
 	"fmt"
+	"math/rand"
 	"net"
 	"net/http"
 	"strings"
@@ -120,13 +121,52 @@ func caseWS(c *mon.Case, sp spec) {
 	var libBytes func(tc *spcodec.TapConn) []byte // the direction written by the library
 
 	if sp.Role == "listen" {
+		if sp.Serve != "" {
+			tag = sp.Tr + "+" + sp.Serve + ":" + sp.Role + ":" + sp.Sock
+		}
 		var lo map[string]interface{}
-		if secure {
+		if secure && sp.Serve != "handler" {
 			lo = map[string]interface{}{mangos.OptionTLSConfig: srvTLS}
 		}
-		l, err := sock.NewListener(hx.ListenAddr(sp.Tr), lo)
+		addr := ""
+		var appLn net.Listener
+		if sp.Serve == "handler" {
+			// the application binds the port; the listener's URL only names it
+			ln, err := net.Listen("tcp", hx.OwnIP()+":0")
+			if err != nil {
+				panic(envError{err})
+			}
+			appLn = spcodec.NoLingerListener(ln)
+			c.Cleanup(func() { appLn.Close() })
+			addr = sp.Tr + "://" + ln.Addr().String() + "/" + hx.Uniq("p")
+		} else {
+			addr = hx.ListenAddr(sp.Tr)
+		}
+		l, err := sock.NewListener(addr, lo)
 		if err != nil {
 			panic(envError{err})
+		}
+		var appHandler http.Handler
+		switch sp.Serve {
+		case "handler":
+			v, err := l.GetOption(ws.OptionWebSocketHandler)
+			h, ok := v.(http.Handler)
+			if err != nil || !ok {
+				c.Inconclusive("GetOption(WEBSOCKET-HANDLER) gave %T, %v: no handler to embed", v, err)
+				return
+			}
+			appHandler = h
+		case "mux":
+			v, err := l.GetOption(ws.OptionWebSocketMux)
+			m, ok := v.(*http.ServeMux)
+			if err != nil || !ok {
+				c.Inconclusive("GetOption(WEBSOCKET-MUX) gave %T, %v: no mux to add routes to", v, err)
+				return
+			}
+			for k := 1 + c.Rand.Intn(3); k > 0; k-- {
+				m.HandleFunc("/"+hx.Uniq("app"), func(w http.ResponseWriter, r *http.Request) { w.Write([]byte("app")) })
+			}
+			c.Count("ws_listeners_with_application_routes", 1)
 		}
 		// a configured listener negotiates like a default one: setting an option of the transport
 		// (either value, before or after Listen) must not change what the upgrade response says
@@ -138,8 +178,41 @@ func caseWS(c *mon.Case, sp spec) {
 				return
 			}
 		}
+		serveApp := func() {
+			// the application's own server: the handler at the path of the listener's URL on a mux with
+			// other routes, or as the server's only handler; wss: the application terminates TLS
+			_, rest := spcodec.SplitURL(addr)
+			path := rest[strings.Index(rest, "/"):]
+			var root http.Handler = appHandler
+			if c.Rand.Intn(2) == 0 {
+				m := http.NewServeMux()
+				m.Handle(path, appHandler)
+				m.HandleFunc("/"+hx.Uniq("app"), func(w http.ResponseWriter, r *http.Request) { w.Write([]byte("app")) })
+				root = m
+			}
+			ln := appLn
+			if secure {
+				ln = tls.NewListener(ln, srvTLS)
+			}
+			hs := &http.Server{Handler: root}
+			go hs.Serve(ln)
+			c.Cleanup(func() { hs.Close() })
+			c.Count("ws_listeners_in_application_server", 1)
+		}
+		appFirst := sp.Serve == "handler" && c.Rand.Intn(2) == 0 // the application's server is up before / after Listen
+		if sp.Serve == "handler" && appFirst {
+			serveApp()
+		}
 		if err := l.Listen(); err != nil {
+			if sp.Serve == "handler" {
+				// nothing to bind in this mode: the error is the library's
+				c.Inconclusive("Listen of a listener whose handler was taken returned %v", err)
+				return
+			}
 			panic(envError{err})
+		}
+		if sp.Serve == "handler" && !appFirst {
+			serveApp()
 		}
 		if optWhen == 2 {
 			if err := l.SetOption(ws.OptionWebSocketCheckOrigin, optVal); err != nil {
@@ -151,6 +224,9 @@ func caseWS(c *mon.Case, sp spec) {
 			c.Count("ws_listeners_with_checkorigin_set", 1)
 		}
 		url := l.Address() // ws://127.0.0.1:port/path
+		if sp.Serve == "handler" {
+			url = addr
+		}
 		_, rest := spcodec.SplitURL(url)
 		hostport, path := rest, "/"
 		if i := strings.Index(rest, "/"); i >= 0 {
@@ -577,6 +653,30 @@ func caseWS(c *mon.Case, sp spec) {
 		c.Nontrivial()
 	}
 	c.Sig("ws|%s|%s", tag, shape)
+}
+
+// genWSEmbCases: ws/wss listeners whose HTTP side is (partly) the application's:
+// the handler taken out with OptionWebSocketHandler and served by the
+// application's own http.Server, or application routes added to the listener's
+// mux (OptionWebSocketMux) before Listen.  The negotiation and the messages
+// are judged exactly as for a listener that serves itself.
+func genWSEmbCases(rnd *rand.Rand, rounds int) []mon.CaseSpec {
+	var out []mon.CaseSpec
+	for round := 0; round < rounds; round++ {
+		for _, serve := range []string{"handler", "mux"} {
+			for _, tr := range []string{"ws", "wss"} {
+				for i, s := range xsocks {
+					if serve == "mux" && round == 0 && (i%2 == 0) != (tr == "ws") {
+						// first round: each socket twice in the application's server, once (ws or wss) with application routes
+						continue
+					}
+					sizes := genSizes(rnd, 3+rnd.Intn(4), false)
+					out = append(out, mon.CaseSpec{Name: "wsemb", Spec: spec{Kind: "wsemb", Tr: tr, Role: "listen", Sock: s, Sizes: sizes, Serve: serve, Full: round == 0 && serve == "handler"}})
+				}
+			}
+		}
+	}
+	return out
 }
 
 // findTap returns the relayed connection whose upgrade request names path
